@@ -508,8 +508,29 @@ int _vnadata_load_npd(vnadata_internal_t *vdip, FILE *fp, const char *filename)
 			FIELD(&nss, 0));
 		goto out;
 	    }
-	    if (vnadata_set_format(vdp, FIELD(&nss, 1)) == -1) {
-		goto out;
+	    {
+		vnaerr_error_fn_t *saved_error_fn = vdip->vdi_error_fn;
+		int set_rc;
+
+		/*
+		 * A bad specifier in the file is a syntax error of the
+		 * file, not a usage error of the caller.
+		 */
+		vdip->vdi_error_fn = NULL;
+		set_rc = vnadata_set_format(vdp, FIELD(&nss, 1));
+		vdip->vdi_error_fn = saved_error_fn;
+		if (set_rc == -1) {
+		    if (errno == EINVAL) {
+			_vnadata_error(vdip, VNAERR_SYNTAX,
+				"%s (line %d) error: invalid parameter "
+				"format: %s", nss.nss_filename,
+				nss.nss_line, FIELD(&nss, 1));
+		    } else {
+			_vnadata_error(vdip, VNAERR_SYSTEM,
+				"vnadata_set_format: %s", strerror(errno));
+		    }
+		    goto out;
+		}
 	    }
 	    parameter_line = nss.nss_line;
 	    if (scan_line(&nss) == -1) {
